@@ -74,6 +74,10 @@ var units = []Unit{
 		// timestamp tracking of decodeFields: d.timestamp = timestamp; d.lastTimeOffset = byte(timestamp & mask)
 		{Kind: "block", Name: "decodeFields_timestamp", Func: "Decoder.decodeFields", Anchor: "d.lastTimeOffset"},
 		{Kind: "func", Name: "bits.Pull"},
+		{Kind: "func", Name: "Accumulator.Collect"},
+		{Kind: "func", Name: "Accumulator.Accumulate"},
+		{Kind: "func", Name: "Accumulator.Reset"},
+		{Kind: "methodset", Name: "Accumulator", Methods: "Collect Accumulate Reset"},
 		{Kind: "cond", Name: "decodeMessageData_isCompressed", Func: "Decoder.decodeMessageData", Anchor: "MesgCompressedHeaderMask", Occur: 1},
 	}},
 	{Name: "encoder", Dir: "encoder", Items: []Item{
